@@ -15,7 +15,7 @@ import os
 import sys
 
 SCHEDS = ["lpsd", "ltf", "vectorized_ltf", "new_ltf"]
-OLAPS = [0.0, 0.25, 0.5, 0.75, 0.9, 0.99, 0.999, 0.6613, 0.7058, 0.7961]
+OLAPS = [0.0, 0.25, 0.5, 0.75, 0.9, 0.99, 0.999, 0.6613, 0.7058, 0.7961, 1.0 / 3.0, 2.0 / 3.0, 0.1, 0.2, 0.3, 0.4, 0.6, 0.7, 0.8]
 
 
 FS = [1.0, 2.0, 0.5, 1024.0, 48000.0, 1e-3, 10.0, 1000.0, 0.37, 2.0 ** -7, 1e6, 3.0]
